@@ -462,13 +462,12 @@ class SVG:
             svg.apply_style_attributes(inplace=True)
             return svg
 
-        if self.elements:
-            # if we already parsed the SVG shapes, apply style attrs and sync tree
-            for shape in self.shapes():
-                shape.apply_style_attribute(inplace=True)
-            self._update_etree()
+        # write pending shape edits to the tree first: a parsed shape also carries the style
+        # it inherits, applying that to the shape itself would turn inherited declarations
+        # into attributes of the shape
+        self._update_etree()
 
-        # parse all remaining style attributes (e.g. in gradients or root svg element)
+        # parse all style attributes (shapes, groups, gradients, root svg element)
         for el in itertools.chain((self.svg_root,), self.xpath("//svg:*[@style]")):
             self._apply_styles(el)
 
